@@ -2,6 +2,7 @@ import numpy as np
 from dataclasses import dataclass, field, fields
 from typing import Union
 from math import isclose
+import fractions
 
 from .settings import *
 
@@ -72,6 +73,9 @@ class Fraction:
             return Fraction(self.num*other.num, self.den*other.den)
         elif isinstance(other, tuple):
             return Fraction(self.num*other[0], self.den*other[1])
+        elif isinstance(other, float) and not other.is_integer():
+            other = fractions.Fraction(other).limit_denominator(1000)
+            return Fraction(self.num*other.numerator, self.den*other.denominator)
         else:
             return Fraction(self.num*other, self.den)
 
